@@ -5,6 +5,8 @@ reach it from the stated basin is explored by this recovery sweep."""
 import math
 import warnings
 
+import sys
+
 import numpy as np
 
 from .. import common, gen_all, gen_formulas, curves, fits
@@ -284,4 +286,4 @@ def replay(rec):
     if pl.get("kind") == "refit":
         refit_sequences(R())
         return not R.bad
-    return True
+    return common.replay_by_rerun(sys.modules[__name__], rec)
